@@ -11,7 +11,16 @@ Since the c-round (seeded C07-c1, C07-c2, C09-c1): channels can be small and ful
 time can pass with a channel held full (`sleep <ms>`; the configurable timeouts are small: `sot=<ms>`, and the transport of a
 `via=accept` connection has connection_open_timeout = 1 s), connections can go through the REAL `TcpTransport::accept` future
 (`via=accept`, `accept`; model Model/Conn/Accept.lean), and held substreams can be half-closed and read from (`half_close`,
-`read_sub`, `remote_send`). Durations are never compared."""
+`read_sub`, `remote_send`). Durations are never compared.
+
+Since the d-round (seeded C08-d2, C09-d1): observations carry the substream ids (`Oo<id>`, `X<id>`; requests are numbered
+1000 + n by acceptance) and the negotiated name (`.f<k>` = the protocol's k-th fallback name); protocols can have fallback
+names (`fb=<i>:<n>`), the remote can propose them (`<i>.f<k>`) or know nothing else (`remote=fallback`); `burst <i> <n>`
+sends n open requests in a row (more than 256 = the command channel is full: `ok256,clogged`); with `remote=stall` the yamux
+streams are never acknowledged, so beyond 256 pending requests `Control::open_stream()` does not return and only the OUTER
+timer of the request's future can answer it; `sot=` is small in those cases and a `sleep` of timeout + 500 ms follows.
+C08 pulls the area in as well (`oracle_c08`). On a `sot=` connection the driver reads WHICH outbound requests of a
+listening protocol timed out during an operation from the implementation's observation (it has no clock)."""
 import re
 from .common import bump
 
